@@ -15,6 +15,7 @@ use crate::model_reach::*;
 use crate::model_structs::*;
 use crate::model_consts::*;
 use crate::model_entry::*;
+use crate::model_vertex::{vertex_args_wf, vertex_states_toks};
 use crate::naga_front::*;
 use crate::print_model::*;
 use crate::print_model::process_model::*;
@@ -49,8 +50,8 @@ pub uninterp spec fn pre_vertex_methods(m: &naga::Module) -> bool;
 pub uninterp spec fn spec_vertex_methods(m: &naga::Module) -> Seq<Tok>;
 pub open spec fn pre_entry_consts(m: &naga::Module) -> bool { true }
 pub open spec fn spec_entry_consts(m: &naga::Module) -> Seq<Tok> { entry_consts_toks(m.entry_points@) }
-pub uninterp spec fn pre_vertex_states(m: &naga::Module) -> bool;
-pub uninterp spec fn spec_vertex_states(m: &naga::Module) -> Seq<Tok>;
+pub open spec fn pre_vertex_states(m: &naga::Module) -> bool { vertex_args_wf(m) }
+pub open spec fn spec_vertex_states(m: &naga::Module) -> Seq<Tok> { vertex_states_toks(m) }
 pub open spec fn pre_fragment_states(m: &naga::Module) -> bool { entries_wf(m) }
 pub open spec fn spec_fragment_states(m: &naga::Module) -> Seq<Tok> { fragment_states_toks(m) }
 
